@@ -6,10 +6,11 @@ package interp
 // so that harnesses of other properties keep the recording stubs of intr_misc.go.
 //
 //   - encoding/json.Marshal: the JSON text as a term. Objects, arrays, numbers and booleans
-//     are spelled out exactly; a symbolic string s is rendered  "\"" ++ u_jsonesc(s) ++ "\""
-//     where u_jsonesc is uninterpreted, the identity on strings without characters that
-//     encoding/json escapes, and has a left inverse (A-json: encoding/json encodes).
-//     Types with an interpreted MarshalJSON method are marshalled by calling that method.
+//     are spelled out exactly; a symbolic string (printable ASCII) is escaped by an exact
+//     character map (see escapeExactG). Types with an interpreted MarshalJSON method are
+//     marshalled by calling that method.
+//   - url.QueryEscape / url.Values.Encode: the same exact character map (no uninterpreted
+//     function), (*url.URL).String with a symbolic RawQuery: RawQuery is emitted verbatim.
 //   - encoding/json.Unmarshal: the inverse on texts produced by the model above
 //     (A-json: Unmarshal(Marshal(x)) == x for strings, integers, booleans).
 //   - (*json.Encoder).Encode / (*html/template.Template).Execute write through to an
@@ -24,6 +25,7 @@ import (
 	"encoding/json"
 	"fmt"
 	"go/types"
+	"net/url"
 	"reflect"
 	"sort"
 	"strings"
@@ -43,7 +45,82 @@ type jsonOriginG struct {
 
 // ---- JSON text terms
 
-const jsonSafeRe = `(re.* (re.union (re.range " " "!") (re.range "#" "%") (re.range "'" ";") (str.to_re "=") (re.range "?" "[") (re.range "]" "~")))`
+// ---- exact character-level escaping (no uninterpreted functions, no axioms)
+//
+// Inputs are strings over printable ASCII (zz.String). For such strings encoding/json's string
+// escaping and url.QueryEscape are character-wise maps, so escape(s) is spelled out as
+//   escape1(str.at s 0) ++ ... ++ escape1(str.at s (n-1))      (n = a bound on len(s); str.at is "" beyond the end)
+// with escape1 an if-then-else chain over the characters that are rewritten. This is exact on the
+// engine's alphabet: counterexamples need no refinement and replay natively as they are.
+
+type escTableG struct {
+	name string
+	from []string
+	to   []string
+}
+
+var (
+	jsonEscG   escTableG
+	queryEscG  escTableG
+	charTermsG = "c20:char:" // ghost key prefix: terms known to have length <= 1
+)
+
+func init() {
+	jsonEscG.name, queryEscG.name = "json", "query"
+	for c := byte(0x20); c <= 0x7e; c++ {
+		ch := string([]byte{c})
+		if b, err := json.Marshal(ch); err == nil {
+			if e := string(b[1 : len(b)-1]); e != ch {
+				jsonEscG.from, jsonEscG.to = append(jsonEscG.from, ch), append(jsonEscG.to, e)
+			}
+		}
+		if e := url.QueryEscape(ch); e != ch {
+			queryEscG.from, queryEscG.to = append(queryEscG.from, ch), append(queryEscG.to, e)
+		}
+	}
+}
+
+func (t *escTableG) constant(s string) string {
+	if t == &jsonEscG {
+		b, _ := json.Marshal(s)
+		return string(b[1 : len(b)-1])
+	}
+	return url.QueryEscape(s)
+}
+
+// one maps a term of length <= 1.
+func (t *escTableG) one(c *Term) *Term {
+	r := c
+	for k := len(t.from) - 1; k >= 0; k-- {
+		r = mkIte(mkEq(c, mkStr(t.from[k])), mkStr(t.to[k]), r)
+	}
+	return r
+}
+
+func (m *Machine) isCharTermG(t *Term) bool { return len(m.ghost[charTermsG+t.String()]) > 0 }
+func (m *Machine) markCharTermG(t *Term)    { m.ghost[charTermsG+t.String()] = []value{true} }
+
+// escapeExactG applies the character map to s. ok=false when no length bound is known for a part.
+func (m *Machine) escapeExactG(t *escTableG, s *Term) (*Term, bool) {
+	var out []*Term
+	for _, p := range concatParts(s) {
+		switch {
+		case p.IsConst():
+			out = append(out, mkStr(t.constant(p.S)))
+		case m.isCharTermG(p):
+			out = append(out, t.one(p))
+		default:
+			n, ok := m.lenBoundG(p)
+			if !ok {
+				return nil, false
+			}
+			for k := int64(0); k < n; k++ {
+				out = append(out, t.one(mkAt(p, mkInt(k))))
+			}
+		}
+	}
+	return mkConcat(out...), true
+}
 
 func jsonStrTermG(fr *frame, s *Term) *Term {
 	if s.IsConst() {
@@ -54,15 +131,26 @@ func jsonStrTermG(fr *frame, s *Term) *Term {
 		return mkStr(string(b))
 	}
 	m := fr.i.m
-	e := mkUF("u_jsonesc", SStr, s)
-	key := "c20:jsonesc:" + s.String()
-	if len(m.ghost[key]) == 0 {
-		m.ghost[key] = []value{true}
-		m.assume(mkImplies(mkInRe(s, jsonSafeRe), mkEq(e, s)))
-		m.assume(mkEq(mkUF("u_jsonunesc", SStr, e), s))
-		m.note("A-json: encoding/json string escaping is an injective function, the identity on strings free of the characters \" \\ < > & and control characters")
+	e, ok := m.escapeExactG(&jsonEscG, s)
+	if !ok {
+		panic(unmodelled{"json.Marshal of a symbolic string without a length bound"})
 	}
+	m.note("A-json (printable ASCII): encoding/json escapes a string character by character; the engine spells the map out exactly for \" \\ < > & and leaves the other printable characters alone")
 	return mkConcat(mkStr(`"`), e, mkStr(`"`))
+}
+
+// queryEscapeExactG: url.QueryEscape, exact on printable ASCII.
+func queryEscapeExactG(fr *frame, s *Term) *Term {
+	if s.IsConst() {
+		return mkStr(url.QueryEscape(s.S))
+	}
+	m := fr.i.m
+	e, ok := m.escapeExactG(&queryEscG, s)
+	if !ok {
+		return queryEscapeTerm(fr, s)
+	}
+	m.note("A-url (printable ASCII): url.QueryEscape is a character map; spelled out exactly (space -> +, reserved characters -> %XX)")
+	return e
 }
 
 func isFositeType(t types.Type) bool {
@@ -546,6 +634,80 @@ func init() {
 		return unmarshal(fr, a)
 	})
 
+	// ---- net/url under the C20 option: exact query escaping
+	prevValuesEncode := intrinsics["(net/url.Values).Encode"]
+	reg("(net/url.Values).Encode", func(fr *frame, a []value) value {
+		if !fr.i.m.c20On() {
+			return prevValuesEncode(fr, a)
+		}
+		mm := a[0].(*omap)
+		if vs, ok := valuesToNative(mm); ok {
+			return vs.Encode()
+		}
+		type kv struct {
+			k string
+			v []value
+		}
+		var kvs []kv
+		if mm != nil {
+			for _, e := range mm.entries {
+				k, ok := e.key.(string)
+				if !ok {
+					panic(unmodelled{"url.Values.Encode with symbolic key"})
+				}
+				kvs = append(kvs, kv{k, e.val.([]value)})
+			}
+		}
+		sort.Slice(kvs, func(i, j int) bool { return kvs[i].k < kvs[j].k })
+		var parts []*Term
+		for _, e := range kvs {
+			for _, v := range e.v {
+				if len(parts) > 0 {
+					parts = append(parts, mkStr("&"))
+				}
+				parts = append(parts, mkStr(url.QueryEscape(e.k)+"="), queryEscapeExactG(fr, strArg(v)))
+			}
+		}
+		return strVal(mkConcat(parts...))
+	})
+	prevQueryEscape := symIntrinsics["net/url.QueryEscape"]
+	regSym("net/url.QueryEscape", func(fr *frame, a []value) value {
+		if !fr.i.m.c20On() {
+			return prevQueryEscape(fr, a)
+		}
+		return strVal(queryEscapeExactG(fr, strArg(a[0])))
+	})
+	prevURLString := intrinsics["(*net/url.URL).String"]
+	reg("(*net/url.URL).String", func(fr *frame, a []value) value {
+		if !fr.i.m.c20On() {
+			return prevURLString(fr, a)
+		}
+		p := a[0].(*value)
+		if _, ok := fr.i.nativeURL(p); ok {
+			return prevURLString(fr, a)
+		}
+		// only RawQuery symbolic: URL.String() emits RawQuery verbatim after "?"
+		rq := fr.i.fieldOf(p, "net/url", "URL", "RawQuery")
+		q, isTerm := (*rq).(*Term)
+		if !isTerm {
+			return prevURLString(fr, a)
+		}
+		*rq = ""
+		u, ok := fr.i.nativeURL(p)
+		*rq = q
+		if !ok || u.ForceQuery {
+			return prevURLString(fr, a)
+		}
+		frag := ""
+		if f := u.EscapedFragment(); f != "" {
+			frag = "#" + f
+		}
+		u.Fragment, u.RawFragment = "", ""
+		head := mkStr(u.String())
+		query := mkIte(mkEq(q, mkStr("")), mkStr(""), mkConcat(mkStr("?"), q))
+		return strVal(mkConcat(head, query, mkStr(frag)))
+	})
+
 	replaceAllHookG = func(fr *frame, a []value) (value, bool) {
 		m := fr.i.m
 		if !m.c20On() {
@@ -562,13 +724,21 @@ func init() {
 				out = append(out, mkStr(strings.ReplaceAll(p.S, old, nw)))
 				continue
 			}
+			if m.isCharTermG(p) {
+				r := mkIte(mkEq(p, mkStr(old)), mkStr(nw), p)
+				m.markCharTermG(r)
+				out = append(out, r)
+				continue
+			}
 			n, ok := m.lenBoundG(p)
 			if !ok {
 				return nil, false
 			}
 			for k := int64(0); k < n; k++ {
 				c := mkAt(p, mkInt(k))
-				out = append(out, mkIte(mkEq(c, mkStr(old)), mkStr(nw), c))
+				r := mkIte(mkEq(c, mkStr(old)), mkStr(nw), c)
+				m.markCharTermG(r)
+				out = append(out, r)
 			}
 		}
 		return strVal(mkConcat(out...)), true
